@@ -1111,7 +1111,7 @@ func (s *Server) UpdateGCSafePoint(ctx context.Context, request *pdpb.UpdateGCSa
 
 	// Only save the safe point if it's greater than the previous one
 	if newSafePoint > oldSafePoint {
-		if err := s.storage.SaveGCSafePoint(newSafePoint); err != nil {
+		if err := s.saveGCSafePointAsLeader(oldSafePoint, newSafePoint); err != nil {
 			return nil, err
 		}
 		log.Info("updated gc safe point",
